@@ -1,101 +1,376 @@
-(* C15: set_doc.  Detaching (set_doc(None)) a root without children and attaching an element without
-   children are handled here; the recorded call shapes 4 and 5 are excluded by their triggers. *)
+(* C15: set_doc.  After the checks (the element is a root; when attaching, nothing under it is attached)
+   one pass over dfs_iterator() stores the document in every element of the tree and, when detaching,
+   clears its region first.  The pass never raises, so a rejected set_doc leaves the model unchanged,
+   and whole trees change document together, which is what "one document per tree" needs. *)
 From Coq Require Import List Arith Bool Lia.
-From TT Require Import Base.HeapTypes Model.Heap Model.HeapTriggers Spec.ModelWF
+From TT Require Import Base.HeapTypes Model.Heap Model.HeapRep Spec.ModelWF
   Proofs.C15.HeapLemmas Proofs.C15.Links Proofs.C15.Tree Proofs.C15.Frames Proofs.C15.LinkOps Proofs.C15.Values
-  Proofs.C15.Dfs Proofs.C15.AttrCalls Proofs.C15.LinkCalls.
+  Proofs.C15.Dfs Proofs.C15.Users Proofs.C15.AttrCalls Proofs.C15.LinkCalls.
 Import ListNotations.
 
-Lemma set_doc_rec_S k h s d : set_doc_rec (S k) h s d =
-  (match d with
-   | None => if is_some (n_parent (nd h s)) then RErr h ERuntime else set_region_m h s None
-   | Some _ => match dfs (S k) h s with
-               | None => RErr h EFuel
-               | Some l => if existsb (fun e => is_some (n_doc (nd h e))) l then RErr h ERuntime else ROk h
-               end
-   end) >>= fun h1 =>
-  let h2 := updn h1 s (HeapTypes.set_doc d) in
-  match kids h2 s with
-  | None => RErr h2 EFuel
-  | Some cs => each (fun h' c => set_doc_rec k h' c d) cs h2
-  end.
-Proof. reflexivity. Qed.
-
-Lemma walk_None h fuel : walk h fuel None = Some [].
-Proof. destruct fuel; reflexivity. Qed.
-Lemma kids_no_first h s : n_first (nd h s) = None -> kids h s = Some [].
-Proof. intro E. unfold kids. rewrite E. apply walk_None. Qed.
-
-(* changing the document of a root that has no children and references no region *)
-Lemma set_doc_update_WF h s d : WF h -> s < nnodes h -> odoc_ok h d = true ->
-  n_parent (nd h s) = None -> n_first (nd h s) = None -> n_region (nd h s) = None ->
-  WF (updn h s (HeapTypes.set_doc d)).
+(* ---- ancestors ---- *)
+Lemma parent_in_range h c p : n_parent (nd h c) = Some p -> c < nnodes h.
 Proof.
-  intros HW Hs Hd Hp Hf Hr. pose proof HW as ((C & K & _) & _ & D & _ & (W1 & W2 & W3) & V).
-  destruct (K s Hs) as [cs Cs]. assert (cs = []) by (apply (Children_nil_first _ _ _ Cs); exact Hf). subst cs.
-  apply (WF_struct h); auto; try apply nnodes_updn; try (apply same_updn; reflexivity).
-  - destruct C as [C1 C2]. split; [|intros d0 Hd0; unfold ref_ok; rewrite nnodes_updn; apply (C2 d0 Hd0)].
-    intros i Hi. rewrite nnodes_updn in Hi. destruct (C1 i Hi) as (R1 & R2 & R3 & R4 & R5 & R6 & R7). unfold ref_ok, dref_ok in *.
-    rewrite !(proj_updn n_parent), !(proj_updn n_first), !(proj_updn n_last), !(proj_updn n_next), !(proj_updn n_prev),
-      !(proj_updn n_region), nnodes_updn by reflexivity.
-    repeat split; auto. destruct (Nat.eq_dec i s) as [->|N]; [|rewrite nd_updn_other by auto; exact R7].
-    rewrite nd_updn_same by assumption. simpl. destruct d as [dd|]; [|exact I]. simpl in Hd. apply Nat.ltb_lt. exact Hd.
-  - intros c p Hc. rewrite nnodes_updn in Hc. rewrite (proj_updn n_parent) by reflexivity. intro E.
-    assert (c <> s) by (intros ->; congruence).
-    assert (p <> s).
-    { intros ->. destruct Cs as (_ & _ & _ & _ & All). destruct (All c Hc E). }
-    rewrite !nd_updn_other by auto. apply D; assumption.
-  - split; [|split; [|exact W3]].
-    + intros i r Hi. rewrite nnodes_updn in Hi. rewrite (proj_updn n_region), (proj_updn n_kind) by reflexivity.
-      intro E. assert (i <> s) by (intros ->; congruence).
-      destruct (W1 i r Hi E) as [Cp (d1 & id & E1 & E2 & E3)]. split; [exact Cp|]. exists d1, id.
-      rewrite (proj_updn n_id) by reflexivity. rewrite nd_updn_other by auto. auto.
-    + intros d1 id r Hd1. rewrite (proj_updn n_kind), (proj_updn n_id) by reflexivity. apply W2. exact Hd1.
-  - apply (values_frame h); auto; try apply nnodes_updn; try (apply same_updn; reflexivity). apply dsame_updn.
+  intro E. destruct (lt_dec c (nnodes h)); [assumption|]. exfalso.
+  unfold nd in E. rewrite nth_overflow in E by (unfold nnodes in *; lia). discriminate.
+Qed.
+Lemma up_snoc h a b c : up h a b -> n_parent (nd h b) = Some c -> up h a c.
+Proof.
+  induction 1 as [a b E|a b c0 E U IH]; intro E1.
+  - eapply up_step; [exact E|constructor; exact E1].
+  - eapply up_step; [exact E|apply IH; exact E1].
+Qed.
+Lemma up_first h a b q : up h a b -> n_parent (nd h a) = Some q -> q = b \/ up h q b.
+Proof. destruct 1 as [a b E|a b c E U]; intro Eq; rewrite Eq in E; injection E as ->; auto. Qed.
+Lemma up_trans h a b c : up h a b -> up h b c -> up h a c.
+Proof. induction 1; intros; [eapply up_step; eauto|eapply up_step; eauto]. Qed.
+Lemma up_linear h x a b : up h x a -> up h x b -> a = b \/ up h a b \/ up h b a.
+Proof.
+  intro Ua. revert b. induction Ua as [x a E|x p a E Ua IH]; intros b Ub.
+  - destruct (up_first _ _ _ _ Ub E) as [->|U]; [left; reflexivity|right; left; exact U].
+  - destruct (up_first _ _ _ _ Ub E) as [->|U]; [right; right; exact Ua|apply IH; exact U].
 Qed.
 
-(* the body of set_doc for an element without children *)
-Lemma set_doc_leaf k h1 s d : n_first (nd h1 s) = None ->
-  (let h2 := updn h1 s (HeapTypes.set_doc d) in
-   match kids h2 s with None => RErr h2 EFuel | Some cs => each (fun h' c => set_doc_rec k h' c d) cs h2 end)
-  = ROk (updn h1 s (HeapTypes.set_doc d)).
+Definition sub (h : heap) (x s : nat) : Prop := x = s \/ up h x s.
+
+Section TreeFacts.
+  Variable h : heap.
+  Hypothesis HA : WF_acyclic h.
+
+  Lemma no_self_up x : ~ up h x x.
+  Proof.
+    intro U. assert (Hx : x < nnodes h) by (inversion U; subst; eapply parent_in_range; eauto).
+    exact (Rooted_no_cycle h x (HA x Hx) U).
+  Qed.
+  Lemma parent_not_sub c s : n_parent (nd h c) = Some s -> ~ sub h s c.
+  Proof.
+    intros E [->|U]; [apply (no_self_up c); constructor; exact E|].
+    apply (no_self_up c). eapply up_step; [exact E|exact U].
+  Qed.
+  Lemma siblings_disjoint x c c' s : n_parent (nd h c) = Some s -> n_parent (nd h c') = Some s -> c <> c' ->
+    sub h x c -> sub h x c' -> False.
+  Proof.
+    intros E E' N S S'.
+    assert (G : forall a b, n_parent (nd h a) = Some s -> n_parent (nd h b) = Some s -> up h a b -> False).
+    { intros a b Ea Eb U. destruct (up_first _ _ _ _ U Ea) as [->|U2].
+      - apply (no_self_up b). constructor. exact Eb.
+      - apply (no_self_up b). eapply up_step; [exact Eb|exact U2]. }
+    destruct S as [->|U], S' as [->|U'].
+    - congruence.
+    - eapply G; [exact E|exact E'|exact U'].
+    - eapply G; [exact E'|exact E|exact U].
+    - destruct (up_linear _ _ _ _ U U') as [?|[U2|U2]]; [congruence|eapply G; [exact E|exact E'|exact U2]|eapply G; [exact E'|exact E|exact U2]].
+  Qed.
+End TreeFacts.
+
+(* ---- list(self) and dfs_iterator only read the links ---- *)
+Lemma walk_frame h h' : same lk h h' -> forall fuel cur, walk h' fuel cur = walk h fuel cur.
 Proof.
-  intro E. cbv zeta. rewrite kids_no_first; [reflexivity|]. rewrite (proj_updn n_first) by reflexivity. exact E.
+  intros S. induction fuel as [|k IH]; intros [c|]; simpl; try reflexivity.
+  rewrite (lk_next h h' S), IH. reflexivity.
+Qed.
+Lemma kids_frame h h' : nnodes h' = nnodes h -> same lk h h' -> forall s, kids h' s = kids h s.
+Proof. intros N S s. unfold kids. rewrite N, (lk_first h h' S). apply walk_frame. exact S. Qed.
+Lemma dfs_list_ext (f g : nat -> option (list nat)) cs : (forall c, In c cs -> f c = g c) -> dfs_list f cs = dfs_list g cs.
+Proof.
+  induction cs as [|c t IH]; intro E; simpl; [reflexivity|].
+  rewrite (E c (or_introl eq_refl)), IH; [reflexivity|]. intros; apply E; right; assumption.
+Qed.
+Lemma dfs_frame h h' : nnodes h' = nnodes h -> same lk h h' -> forall fuel s, dfs fuel h' s = dfs fuel h s.
+Proof.
+  intros N S. induction fuel as [|k IH]; intro s; [reflexivity|].
+  rewrite !dfs_S, (kids_frame h h' N S). destruct (kids h s) as [cs|]; [|reflexivity].
+  rewrite (dfs_list_ext (dfs k h') (dfs k h) cs); [reflexivity|]. intros; apply IH.
 Qed.
 
-Theorem set_doc_none_WF h s : WF h -> s < nnodes h -> t_set_doc_none_children h s = false ->
-  WF (heap_of (set_doc_m h s None)).
+(* ---- what dfs enumerates ---- *)
+Lemma dfs_list_In (f : nat -> option (list nat)) cs l : dfs_list f cs = Some l ->
+  forall x, In x l <-> exists c lc, In c cs /\ f c = Some lc /\ In x lc.
 Proof.
-  intros HW Hs T. unfold set_doc_m. rewrite set_doc_rec_S.
-  destruct (is_some (n_parent (nd h s))) eqn:P; [exact HW|].
-  unfold t_set_doc_none_children in T. rewrite P in T. simpl in T. apply is_some_false in T. apply is_some_false in P.
-  pose proof (set_region_WF h s None HW Hs eq_refl ltac:(intros rr [=])) as W1.
-  pose proof (set_region_none_keeps h s) as (SZ & _ & _ & SK & _ & KR).
-  assert (SL : same lk h (heap_of (set_region_m h s None))).
-  { unfold set_region_m. destruct (kind_of h s); simpl; try apply same_refl; apply same_updn; reflexivity. }
-  destruct (set_region_m h s None) as [h1|h1 e] eqn:E; [|exact W1]. simpl in *.
-  assert (F1 : n_first (nd h1 s) = None) by (rewrite (lk_first h h1 SL); exact T).
-  assert (P1 : n_parent (nd h1 s) = None) by (rewrite (lk_parent h h1 SL); exact P).
-  rewrite (set_doc_leaf _ _ _ _ F1). simpl.
-  destruct SZ as [N1 _].
-  apply set_doc_update_WF; auto; [rewrite N1; exact Hs|].
-  (* the element's own region was cleared (or it could not have one) *)
-  destruct (n_region (nd h1 s)) as [r|] eqn:R; [|reflexivity]. exfalso.
-  pose proof W1 as (_ & _ & _ & _ & (Q1 & _) & _). destruct (Q1 s r ltac:(rewrite N1; exact Hs) R) as [Cp _].
-  revert E R. unfold set_region_m, kind_of. rewrite SK in Cp.
-  destruct (n_kind (nd h s)); try discriminate Cp; simpl; intros [= <-]; rewrite nd_updn_same by assumption; simpl; discriminate.
+  revert l. induction cs as [|c t IH]; intros l E x; simpl in E.
+  - injection E as <-. split; [intros []|intros (c & lc & [] & _)].
+  - destruct (f c) as [a|] eqn:Ea; [|discriminate]. destruct (dfs_list f t) as [b|] eqn:Eb; [|discriminate].
+    injection E as <-. rewrite in_app_iff, (IH b eq_refl x). split.
+    + intros [H|(c' & lc & H1 & H2 & H3)]; [exists c, a; repeat split; [left; reflexivity|exact Ea|exact H]|exists c', lc; repeat split; [right; exact H1|exact H2|exact H3]].
+    + intros (c' & lc & [<-|H1] & H2 & H3); [left; congruence|right; exists c', lc; repeat split; assumption].
+Qed.
+Lemma dfs_list_each (f : nat -> option (list nat)) cs l : dfs_list f cs = Some l -> forall c, In c cs -> exists lc, f c = Some lc.
+Proof.
+  revert l. induction cs as [|c t IH]; intros l E c0 Hc; [destruct Hc|]. simpl in E.
+  destruct (f c) as [a|] eqn:Ea; [|discriminate]. destruct (dfs_list f t) as [b|] eqn:Eb; [|discriminate].
+  destruct Hc as [<-|Hc]; [eauto|eapply IH; eauto].
 Qed.
 
-Theorem set_doc_some_leaf_WF h s d : WF h -> s < nnodes h -> d < ndocs h -> t_set_doc_on_child h s = false ->
-  n_first (nd h s) = None -> WF (heap_of (set_doc_m h s (Some d))).
+Section DfsFacts.
+  Variable h : heap.
+  Hypothesis HK : Kids h.
+
+  Lemma dfs_sound : forall fuel s l, s < nnodes h -> dfs fuel h s = Some l -> forall x, In x l -> sub h x s.
+  Proof.
+    induction fuel as [|k IH]; intros s l Hs E x Hx; [discriminate|].
+    rewrite dfs_S in E. destruct (HK s Hs) as [cs C]. rewrite (Children_kids _ _ _ C) in E.
+    destruct (dfs_list (dfs k h) cs) as [l'|] eqn:El; [|discriminate]. injection E as <-.
+    destruct Hx as [<-|Hx]; [left; reflexivity|].
+    apply (dfs_list_In _ _ _ El) in Hx. destruct Hx as (c & lc & Hc & Ec & Hxc).
+    destruct (Children_member _ _ _ _ C Hc) as [Rc Pc].
+    right. destruct (IH c lc Rc Ec x Hxc) as [->|U]; [constructor; exact Pc|eapply up_snoc; eauto].
+  Qed.
+  (* every enumerated element other than the root has its parent enumerated *)
+  Lemma dfs_parent_closed : forall fuel s l, s < nnodes h -> dfs fuel h s = Some l ->
+    In s l /\ forall x, In x l -> x = s \/ exists p, n_parent (nd h x) = Some p /\ In p l.
+  Proof.
+    induction fuel as [|k IH]; intros s l Hs E; [discriminate|].
+    rewrite dfs_S in E. destruct (HK s Hs) as [cs C]. rewrite (Children_kids _ _ _ C) in E.
+    destruct (dfs_list (dfs k h) cs) as [l'|] eqn:El; [|discriminate]. injection E as <-.
+    split; [left; reflexivity|]. intros x [<-|Hx]; [left; reflexivity|]. right.
+    apply (dfs_list_In _ _ _ El) in Hx. destruct Hx as (c & lc & Hc & Ec & Hxc).
+    destruct (Children_member _ _ _ _ C Hc) as [Rc Pc].
+    destruct (IH c lc Rc Ec) as [_ Cl]. destruct (Cl x Hxc) as [->|(p & Ep & Hp)].
+    - exists s. split; [exact Pc|left; reflexivity].
+    - exists p. split; [exact Ep|]. right. apply (dfs_list_In _ _ _ El). exists c, lc. auto.
+  Qed.
+  (* the children of an enumerated element are enumerated *)
+  Lemma dfs_child_closed : forall fuel s l, s < nnodes h -> dfs fuel h s = Some l ->
+    forall p c, In p l -> n_parent (nd h c) = Some p -> In c l.
+  Proof.
+    induction fuel as [|k IH]; intros s l Hs E p c Hp Ec; [discriminate|].
+    rewrite dfs_S in E. destruct (HK s Hs) as [cs C]. rewrite (Children_kids _ _ _ C) in E.
+    destruct (dfs_list (dfs k h) cs) as [l'|] eqn:El; [|discriminate]. injection E as <-.
+    destruct Hp as [<-|Hp].
+    - right. destruct C as (_ & _ & _ & _ & All). pose proof (All c (parent_in_range _ _ _ Ec) Ec) as Hc.
+      destruct (dfs_list_each _ _ _ El c Hc) as [lc Elc]. apply (dfs_list_In _ _ _ El). exists c, lc. repeat split; auto.
+      apply (dfs_parent_closed k c lc (parent_in_range _ _ _ Ec) Elc).
+    - right. apply (dfs_list_In _ _ _ El) in Hp. destruct Hp as (c0 & lc & Hc0 & Ec0 & Hpc).
+      apply (dfs_list_In _ _ _ El). exists c0, lc. repeat split; auto.
+      eapply IH; [apply (Children_member _ _ _ _ C Hc0)|exact Ec0|exact Hpc|exact Ec].
+  Qed.
+End DfsFacts.
+
+Definition EffectOn (l : list nat) (d0 : nat) (h0 h' : heap) : Prop :=
+  nnodes h' = nnodes h0 /\ h_docs h' = h_docs h0 /\
+  forall j, nd h' j = HeapTypes.set_doc (if memb j l then Some d0 else n_doc (nd h0 j)) (nd h0 j).
+
+Lemma set_doc_id n : HeapTypes.set_doc (n_doc n) n = n.
+Proof. destruct n; reflexivity. Qed.
+
+Lemma EffectOn_nil d0 h : EffectOn [] d0 h h.
+Proof. split; [reflexivity|split; [reflexivity|]]. intro j. simpl. symmetry. apply set_doc_id. Qed.
+Lemma EffectOn_one d0 h s : s < nnodes h -> EffectOn [s] d0 h (updn h s (HeapTypes.set_doc (Some d0))).
 Proof.
-  intros HW Hs Hd T F. unfold set_doc_m. rewrite set_doc_rec_S.
-  rewrite dfs_S, (kids_no_first _ _ F). simpl dfs_list. simpl option_map. cbn [existsb]. rewrite orb_false_r.
-  destruct (is_some (n_doc (nd h s))) eqn:A; [exact HW|]. simpl bind.
-  rewrite (set_doc_leaf _ _ _ _ F). simpl. apply is_some_false in A.
-  unfold t_set_doc_on_child in T. rewrite A in T. simpl in T. rewrite andb_true_r in T. apply is_some_false in T.
-  apply set_doc_update_WF; auto.
-  - simpl. apply Nat.ltb_lt. exact Hd.
-  - destruct (n_region (nd h s)) as [r|] eqn:R; [|reflexivity]. exfalso.
-    pose proof HW as (_ & _ & _ & _ & (Q1 & _) & _). destruct (Q1 s r Hs R) as [_ (d1 & _ & E1 & _)]. congruence.
+  intro Hs. split; [apply nnodes_updn|split; [reflexivity|]]. intro j. simpl. rewrite orb_false_r.
+  destruct (Nat.eqb_spec j s) as [->|N].
+  - rewrite nd_updn_same by assumption. reflexivity.
+  - rewrite nd_updn_other by auto. symmetry. apply set_doc_id.
+Qed.
+Lemma EffectOn_trans d0 a b h0 h1 h2 : EffectOn a d0 h0 h1 -> EffectOn b d0 h1 h2 -> EffectOn (a ++ b) d0 h0 h2.
+Proof.
+  intros (N1 & D1 & E1) (N2 & D2 & E2). split; [congruence|split; [congruence|]]. intro j.
+  rewrite E2, E1, memb_app. simpl. destruct (memb j a), (memb j b); reflexivity.
+Qed.
+Lemma EffectOn_lk l d0 h0 h' : EffectOn l d0 h0 h' -> same lk h0 h'.
+Proof. intros (_ & _ & E) j. rewrite E. reflexivity. Qed.
+Lemma EffectOn_doc l d0 h0 h' : EffectOn l d0 h0 h' -> forall j, n_doc (nd h' j) = if memb j l then Some d0 else n_doc (nd h0 j).
+Proof. intros (_ & _ & E) j. rewrite E. reflexivity. Qed.
+Lemma EffectOn_same {X} (pi : node -> X) l d0 h0 h' : (forall v n, pi (HeapTypes.set_doc v n) = pi n) -> EffectOn l d0 h0 h' -> same pi h0 h'.
+Proof. intros P (_ & _ & E) j. rewrite E. apply P. Qed.
+
+
+(* ---- attaching: the pass stores the document in every enumerated element ---- *)
+Definition pass (d : option nat) (h' : heap) (e : nat) : res :=
+  (if negb (is_some d) && is_some (n_region (nd h' e)) then set_region_m h' e None else ROk h')
+  >>= fun h2 => ROk (updn h2 e (HeapTypes.set_doc d)).
+
+Lemma attach_pass d0 : forall l h, (forall e, In e l -> e < nnodes h) ->
+  exists h', each (pass (Some d0)) l h = ROk h' /\ EffectOn l d0 h h'.
+Proof.
+  induction l as [|e t IH]; intros h Hl.
+  - exists h. split; [reflexivity|apply EffectOn_nil].
+  - assert (He : e < nnodes h) by (apply Hl; left; reflexivity).
+    pose proof (EffectOn_one d0 h e He) as E1.
+    destruct (IH (updn h e (HeapTypes.set_doc (Some d0)))) as (h' & R & E2).
+    + intros x Hx. rewrite nnodes_updn. apply Hl. right; exact Hx.
+    + exists h'. split; [simpl; exact R|]. exact (EffectOn_trans d0 [e] t _ _ _ E1 E2).
+Qed.
+
+(* ---- detaching: region and document of every enumerated element are cleared ---- *)
+Definition strip2 (n : node) : node := HeapTypes.set_doc None (strip n).
+Lemma strip2_proj {X} (pi : node -> X) : (forall v n, pi (set_users v n) = pi n) -> (forall v n, pi (set_region v n) = pi n) ->
+  (forall v n, pi (HeapTypes.set_doc v n) = pi n) -> forall a b, strip2 a = strip2 b -> pi a = pi b.
+Proof.
+  intros P1 P2 P3 a b E. rewrite <- (P2 None a), <- (P1 [] (set_region None a)), <- (P3 None (set_users [] (set_region None a))).
+  fold (strip a). fold (strip2 a). rewrite E. unfold strip2, strip. rewrite P3, P1, P2. reflexivity.
+Qed.
+Definition DetachOn (l : list nat) (h h' : heap) : Prop :=
+  nnodes h' = nnodes h /\ h_docs h' = h_docs h /\ (forall j, strip2 (nd h' j) = strip2 (nd h j)) /\
+  (forall j, n_region (nd h' j) = if memb j l then None else n_region (nd h j)) /\
+  (forall j, n_doc (nd h' j) = if memb j l then None else n_doc (nd h j)) /\ UsersOK h'.
+
+Lemma strip_strip2 a b : strip a = strip b -> strip2 a = strip2 b.
+Proof. intro E. unfold strip2. rewrite E. reflexivity. Qed.
+
+Lemma detach_pass : forall l h, (forall e, In e l -> e < nnodes h) ->
+  (forall e r, In e l -> n_region (nd h e) = Some r -> region_capable (n_kind (nd h e)) = true) ->
+  RefsOK h -> UsersOK h ->
+  exists h', each (pass None) l h = ROk h' /\ DetachOn l h h'.
+Proof.
+  induction l as [|e t IH]; intros h Hl Hcap HR HU.
+  - exists h. split; [reflexivity|]. refine (conj eq_refl (conj eq_refl (conj _ (conj _ (conj _ HU))))); intro; reflexivity.
+  - assert (He : e < nnodes h) by (apply Hl; left; reflexivity).
+    (* the region is cleared *)
+    assert (S1 : exists h1, (if negb (is_some (@None nat)) && is_some (n_region (nd h e)) then set_region_m h e None else ROk h) = ROk h1 /\
+                 nnodes h1 = nnodes h /\ h_docs h1 = h_docs h /\ same_strip h h1 /\
+                 (forall j, n_region (nd h1 j) = if Nat.eqb j e then None else n_region (nd h j)) /\ UsersOK h1).
+    { simpl. destruct (n_region (nd h e)) as [r|] eqn:Er; simpl.
+      - pose proof (Hcap e r (or_introl eq_refl) Er) as Cp.
+        assert (A : set_region_m h e None = ROk (link_region h e None)).
+        { unfold set_region_m, kind_of. destruct (n_kind (nd h e)); try discriminate Cp; reflexivity. }
+        exists (link_region h e None). split; [exact A|]. split; [apply link_region_nnodes|]. split; [apply link_region_docs|].
+        split; [apply link_region_strip|]. split.
+        + intro j. rewrite link_region_region by exact He. destruct (Nat.eq_dec j e) as [->|N]; [rewrite Nat.eqb_refl; reflexivity|].
+          apply Nat.eqb_neq in N. rewrite N. reflexivity.
+        + apply link_region_UsersOK; auto; [intros r0 E; apply (HR e r0 He E)|intros rr [=]].
+      - exists h. refine (conj eq_refl (conj eq_refl (conj eq_refl (conj _ (conj _ HU))))); [intro; reflexivity|].
+        intro j. destruct (Nat.eqb_spec j e) as [->|N]; [exact Er|reflexivity]. }
+    destruct S1 as (h1 & E1 & N1 & D1 & SS1 & R1 & U1).
+    set (h2 := updn h1 e (HeapTypes.set_doc None)).
+    assert (He1 : e < nnodes h1) by (rewrite N1; exact He).
+    assert (SD1 : same n_doc h h1) by (apply same_strip_same; [reflexivity|reflexivity|exact SS1]).
+    assert (SK1 : same n_kind h h1) by (apply same_strip_same; [reflexivity|reflexivity|exact SS1]).
+    assert (R2 : forall j, n_region (nd h2 j) = if Nat.eqb j e then None else n_region (nd h j)).
+    { intro j. unfold h2. rewrite (proj_updn n_region) by reflexivity. apply R1. }
+    assert (DOC2 : forall j, n_doc (nd h2 j) = if Nat.eqb j e then None else n_doc (nd h j)).
+    { intro j. unfold h2. rewrite (nd_updn_cases n_doc) by exact He1.
+      destruct (Nat.eq_dec j e) as [->|N]; [rewrite Nat.eqb_refl; reflexivity|]. apply Nat.eqb_neq in N. rewrite N. apply SD1. }
+    assert (ST2 : forall j, strip2 (nd h2 j) = strip2 (nd h j)).
+    { intro j. unfold h2. destruct (Nat.eq_dec j e) as [->|N].
+      - rewrite nd_updn_same by exact He1. rewrite <- (strip_strip2 _ _ (SS1 e)). destruct (nd h1 e); reflexivity.
+      - rewrite nd_updn_other by auto. apply strip_strip2. apply SS1. }
+    assert (U2 : UsersOK h2) by (apply (users_frame h1); [apply nnodes_updn|apply same_updn; reflexivity|apply same_updn; reflexivity|exact U1]).
+    destruct (IH h2) as (h3 & E3 & N3 & D3 & ST3 & R3 & DOC3 & U3).
+    + intros x Hx. unfold h2. rewrite nnodes_updn, N1. apply Hl. right; exact Hx.
+    + intros x r Hx. rewrite R2. unfold h2. rewrite (proj_updn n_kind) by reflexivity. rewrite SK1.
+      destruct (Nat.eqb x e); [discriminate|]. apply Hcap. right; exact Hx.
+    + intros j r0 Hj. unfold h2 in Hj. rewrite nnodes_updn, N1 in Hj. rewrite R2. unfold h2. rewrite nnodes_updn, N1.
+      destruct (Nat.eqb j e); [discriminate|]. apply HR. exact Hj.
+    + exact U2.
+    + exists h3. split.
+      * simpl each. unfold pass at 1. rewrite E1. simpl bind. exact E3.
+      * unfold h2 in N3. rewrite nnodes_updn in N3.
+        refine (conj _ (conj _ (conj _ (conj _ (conj _ U3))))).
+        -- congruence.
+        -- rewrite D3. exact D1.
+        -- intro j. rewrite ST3. apply ST2.
+        -- intro j. rewrite R3, R2. simpl. destruct (Nat.eqb j e), (memb j t); reflexivity.
+        -- intro j. rewrite DOC3, DOC2. simpl. destruct (Nat.eqb j e), (memb j t); reflexivity.
+Qed.
+
+(* ---- the outcome of set_doc ---- *)
+Lemma set_doc_cases h s d : WF h -> Rep h -> s < nnodes h ->
+  (exists e, set_doc_m h s d = RErr h e /\ (e = EFuel -> dfs (S (nnodes h)) h s = None)) \/
+  (exists l h', n_parent (nd h s) = None /\ dfs (S (nnodes h)) h s = Some l /\ set_doc_m h s d = ROk h' /\
+     match d with
+     | Some d0 => (forall x, In x l -> n_doc (nd h x) = None) /\ EffectOn l d0 h h'
+     | None => DetachOn l h h'
+     end).
+Proof.
+  intros HW [HU _] Hs. pose proof HW as ((_ & K & _) & _ & _ & _ & (W1 & _) & _).
+  unfold set_doc_m. destruct (is_some (n_parent (nd h s))) eqn:P; [left; eexists; split; [reflexivity|discriminate]|]. apply is_some_false in P.
+  destruct (dfs (S (nnodes h)) h s) as [l|] eqn:E; [|left; eexists; split; reflexivity].
+  assert (Hl : forall e, In e l -> e < nnodes h) by (intros e He; eapply (dfs_range h K); eauto).
+  destruct d as [d0|].
+  - simpl andb. destruct (existsb (fun e => is_some (n_doc (nd h e))) l) eqn:X; [left; eexists; split; [reflexivity|discriminate]|].
+    right. destruct (attach_pass d0 l h Hl) as (h' & R & Ef). exists l, h'.
+    split; [exact P|]. split; [reflexivity|]. split; [exact R|]. split; [|exact Ef].
+    intros x Hx. destruct (n_doc (nd h x)) eqn:Dx; [|reflexivity]. exfalso.
+    assert (existsb (fun e => is_some (n_doc (nd h e))) l = true) by (apply existsb_exists; exists x; rewrite Dx; auto). congruence.
+  - simpl andb. right. destruct (detach_pass l h Hl) as (h' & R & Ef).
+    + intros e r He Er. apply (W1 e r (Hl e He) Er).
+    + intros j r0 Hj Er. eapply region_in_range; eauto.
+    + exact HU.
+    + exists l, h'. auto.
+Qed.
+
+Lemma set_doc_err h s d h' e : WF h -> Rep h -> s < nnodes h -> set_doc_m h s d = RErr h' e -> h' = h.
+Proof.
+  intros HW HR Hs R. destruct (set_doc_cases h s d HW HR Hs) as [(e1 & R1 & _)|(l & h1 & _ & _ & R1 & _)]; rewrite R1 in R.
+  - injection R as <- _. reflexivity.
+  - discriminate.
+Qed.
+
+(* the enumerated elements are closed under parent (except at the root) and under children *)
+Lemma tree_membership h s l : Kids h -> s < nnodes h -> n_parent (nd h s) = None -> dfs (S (nnodes h)) h s = Some l ->
+  forall c p, n_parent (nd h c) = Some p -> memb c l = memb p l.
+Proof.
+  intros K Hs Proot E c p Ep.
+  destruct (dfs_parent_closed h K _ _ _ Hs E) as [Hsl Hpc]. pose proof (dfs_child_closed h K _ _ _ Hs E) as Hcc.
+  destruct (memb p l) eqn:Mp.
+  - apply memb_In. apply memb_In in Mp. eapply Hcc; eauto.
+  - destruct (memb c l) eqn:Mc; [|reflexivity]. apply memb_In in Mc. exfalso.
+    destruct (Hpc c Mc) as [->|(q & Eq & Hq)]; [congruence|].
+    rewrite Ep in Eq. injection Eq as <-. apply memb_false in Mp. contradiction.
+Qed.
+
+Theorem set_doc_some_WF h s d : WF h -> Rep h -> s < nnodes h -> d < ndocs h ->
+  WF (heap_of (set_doc_m h s (Some d))) /\ Rep (heap_of (set_doc_m h s (Some d))).
+Proof.
+  intros HW HR Hs Hd. destruct (set_doc_cases h s (Some d) HW HR Hs) as [(e & R & _)|(l & h' & Proot & E & R & Hnone & Ef)]; rewrite R; [split; assumption|]. simpl.
+  pose proof HW as ((C & K & _) & A & D & _ & (W1 & W2 & W3) & V).
+  pose proof (tree_membership h s l K Hs Proot E) as TM.
+  pose proof (EffectOn_lk _ _ _ _ Ef) as SL. pose proof (EffectOn_doc _ _ _ _ Ef) as DOC. destruct Ef as (N' & D' & Efj).
+  assert (Ef : EffectOn l d h h') by (split; [exact N'|split; [exact D'|exact Efj]]).
+  split.
+  - apply (WF_struct h); auto.
+  + apply (EffectOn_same n_kind _ _ _ _ ltac:(reflexivity) Ef).
+  + destruct C as [C1 C2]. split.
+    * intros i Hi. rewrite N' in Hi. destruct (C1 i Hi) as (R1 & R2 & R3 & R4 & R5 & R6 & R7). unfold ref_ok, dref_ok in *.
+      rewrite (lk_parent h h' SL), (lk_first h h' SL), (lk_last h h' SL), (lk_next h h' SL), (lk_prev h h' SL), N', DOC.
+      rewrite (EffectOn_same n_region _ _ _ _ ltac:(reflexivity) Ef). rewrite (ndocs_docs _ _ D').
+      repeat split; auto. destruct (memb i l); [exact Hd|exact R7].
+    * intros d1 Hd1. rewrite (ndocs_docs _ _ D') in Hd1. unfold ref_ok, dc. rewrite D', N'. apply C2. exact Hd1.
+  + intros c p Hc. rewrite N' in Hc. rewrite (lk_parent h h' SL), !DOC. intro Ep.
+    rewrite (TM c p Ep). destruct (memb p l); [reflexivity|apply D; assumption].
+  + split; [|split].
+    * intros i r Hi. rewrite N' in Hi. rewrite (EffectOn_same n_region _ _ _ _ ltac:(reflexivity) Ef), (EffectOn_same n_kind _ _ _ _ ltac:(reflexivity) Ef), DOC.
+      intro Er. destruct (W1 i r Hi Er) as [Cp (d1 & id & E1 & E2 & E3)]. split; [exact Cp|].
+      destruct (memb i l) eqn:Mi.
+      -- apply memb_In in Mi. rewrite (Hnone i Mi) in E1. discriminate.
+      -- exists d1, id. rewrite (EffectOn_same n_id _ _ _ _ ltac:(reflexivity) Ef). unfold dc. rewrite D'. auto.
+    * intros d1 id r Hd1. rewrite (ndocs_docs _ _ D') in Hd1. unfold dc. rewrite D'.
+      rewrite (EffectOn_same n_kind _ _ _ _ ltac:(reflexivity) Ef), (EffectOn_same n_id _ _ _ _ ltac:(reflexivity) Ef). apply W2. exact Hd1.
+    * intros d1 Hd1. rewrite (ndocs_docs _ _ D') in Hd1. unfold dc. rewrite D'. apply W3. exact Hd1.
+  + apply (values_frame h); auto; [apply ndocs_docs; exact D'|apply (EffectOn_same n_styles _ _ _ _ ltac:(reflexivity) Ef)
+      |apply (EffectOn_same n_anims _ _ _ _ ltac:(reflexivity) Ef)|apply dsame_docs; exact D'].
+  - apply (rep_frame h); auto;
+      [apply (EffectOn_same n_region _ _ _ _ ltac:(reflexivity) Ef)|apply (EffectOn_same n_users _ _ _ _ ltac:(reflexivity) Ef)
+      |apply (EffectOn_same n_kind _ _ _ _ ltac:(reflexivity) Ef)|apply (EffectOn_same n_id _ _ _ _ ltac:(reflexivity) Ef)].
+Qed.
+
+Theorem set_doc_none_WF h s : WF h -> Rep h -> s < nnodes h ->
+  WF (heap_of (set_doc_m h s None)) /\ Rep (heap_of (set_doc_m h s None)).
+Proof.
+  intros HW HR Hs. destruct (set_doc_cases h s None HW HR Hs) as [(e & R & _)|(l & h' & Proot & E & R & Ef)]; rewrite R; [split; assumption|]. simpl.
+  pose proof HW as ((C & K & _) & A & D & _ & (W1 & W2 & W3) & V).
+  pose proof (tree_membership h s l K Hs Proot E) as TM.
+  destruct Ef as (N' & D' & ST & REG & DOC & U').
+  assert (SL : same lk h h') by (intro j; apply (strip2_proj lk); try reflexivity; apply ST).
+  assert (SK : same n_kind h h') by (intro j; apply (strip2_proj n_kind); try reflexivity; apply ST).
+  assert (SI : same n_id h h') by (intro j; apply (strip2_proj n_id); try reflexivity; apply ST).
+  split.
+  - apply (WF_struct h); auto.
+  + destruct C as [C1 C2]. split.
+    * intros i Hi. rewrite N' in Hi. destruct (C1 i Hi) as (R1 & R2 & R3 & R4 & R5 & R6 & R7). unfold ref_ok, dref_ok in *.
+      rewrite (lk_parent h h' SL), (lk_first h h' SL), (lk_last h h' SL), (lk_next h h' SL), (lk_prev h h' SL), N', DOC, REG.
+      rewrite (ndocs_docs _ _ D'). repeat split; auto; destruct (memb i l); auto; exact I.
+    * intros d1 Hd1. rewrite (ndocs_docs _ _ D') in Hd1. unfold ref_ok, dc. rewrite D', N'. apply C2. exact Hd1.
+  + intros c p Hc. rewrite N' in Hc. rewrite (lk_parent h h' SL), !DOC. intro Ep.
+    rewrite (TM c p Ep). destruct (memb p l); [reflexivity|apply D; assumption].
+  + split; [|split].
+    * intros i r Hi. rewrite N' in Hi. rewrite REG, SK, DOC. destruct (memb i l); [discriminate|].
+      intro Er. destruct (W1 i r Hi Er) as [Cp (d1 & id & E1 & E2 & E3)]. split; [exact Cp|].
+      exists d1, id. rewrite SI. unfold dc. rewrite D'. auto.
+    * intros d1 id r Hd1. rewrite (ndocs_docs _ _ D') in Hd1. unfold dc. rewrite D', SK, SI. apply W2. exact Hd1.
+    * intros d1 Hd1. rewrite (ndocs_docs _ _ D') in Hd1. unfold dc. rewrite D'. apply W3. exact Hd1.
+  + apply (values_frame h); auto; [apply ndocs_docs; exact D'| | |apply dsame_docs; exact D'];
+      intro j; [apply (strip2_proj n_styles)|apply (strip2_proj n_anims)]; try reflexivity; apply ST.
+  - destruct HR as [_ RI]. split; [exact U'|]. apply (region_ids_frame h); auto.
 Qed.
